@@ -288,6 +288,7 @@ func (r *run) apply(i int, op hx.Op) (skip bool, err error) {
 	case "closeefos":
 		return closeFirst("efos")
 	case "waitefos":
+		r.x.Release() // waits for a flush
 		for _, rd := range r.readers {
 			if rd.kind == "efos" {
 				// only meaningful once nothing it needs is unflushed: flush first, then wait
@@ -299,12 +300,14 @@ func (r *run) apply(i int, op hx.Op) (skip bool, err error) {
 		}
 		return true, nil
 	case "ratchet":
+		r.x.Release() // a migration may wait for a flush
 		v := d.FormatMajorVersion()
 		if v >= pebble.FormatNewest {
 			return true, nil
 		}
 		return false, d.RatchetFormatMajorVersion(v + 1)
 	case "waitidle":
+		r.x.Release()
 		d.VerifWaitIdle()
 		return false, nil
 	}
@@ -468,7 +471,7 @@ func histRun(c *vlib.Ctx, cfg hx.Config, mon monitors, pre, hist []hx.Op, verbos
 		}
 		if err != nil {
 			r.closeReaders()
-			x.D.Close()
+			x.CloseDB()
 			return &failure{"op-error", fmt.Sprintf("step %d (%s): %v", i, op, err), i}, -1, nil
 		}
 		c.Trans(1)
@@ -477,7 +480,7 @@ func histRun(c *vlib.Ctx, cfg hx.Config, mon monitors, pre, hist []hx.Op, verbos
 		}
 		if f := r.checkAll(i, op); f != nil {
 			r.closeReaders()
-			x.D.Close()
+			x.CloseDB()
 			return f, -1, nil
 		}
 		if i >= len(pre) {
@@ -487,22 +490,22 @@ func histRun(c *vlib.Ctx, cfg hx.Config, mon monitors, pre, hist []hx.Op, verbos
 	if mon.scanInt && skippedAt < 0 {
 		if d := r.scanInternalReplay(); d != "" {
 			r.closeReaders()
-			x.D.Close()
+			x.CloseDB()
 			return &failure{"scaninternal-replay-mismatch", d, len(all)}, -1, nil
 		}
 	}
 	if err := r.closeReaders(); err != nil {
-		x.D.Close()
+		x.CloseDB()
 		return &failure{"reader-close-error", err.Error(), len(all)}, skippedAt, shapeHashes
 	}
 	if mon.removes && skippedAt < 0 {
 		if d := r.checkNoDeadFiles(); d != "" {
-			x.D.Close()
+			x.CloseDB()
 			return &failure{"dead-file-lingers", d, len(all)}, -1, nil
 		}
 	}
 	r.noteKinds()
-	if err := x.D.Close(); err != nil {
+	if err := x.CloseDB(); err != nil {
 		return &failure{"close-error", err.Error(), len(all)}, skippedAt, shapeHashes
 	}
 	if mon.closeLeak && sharedCache != nil {
